@@ -149,7 +149,9 @@ def site_handover(w, labs, ds, acc):
     """register_static_tree: attached static files of the same creator are handed over."""
     def run(d):
         plan = w.plan()
-        w.wf.declare_static_files(plan, [x for x in labs if x != "plan.py"])
+        # the file with the tree's own name is that directory, not a path under it: a tree over
+        # such a file is refused (as is the file after the tree)
+        w.wf.declare_static_files(plan, [x for x in labs if x not in ("plan.py", d[:-1])])
         w.wf.register_static_tree(plan, d)
         rows = w.db.execute(
             "SELECT n.label FROM node n JOIN node c ON c.i = n.creator WHERE c.kind = 'st' AND n.kind = 'file'"
